@@ -369,10 +369,18 @@ def main(ck):
                 if x and idx * shard + j < len(hs):
                     ck.broken.append("correspondence C01 (framing: the bytes of %d log file(s) of history %d are not what Model.v read_frame expects: "
                                      "[type:1][len:4 big endian][payload] records, the tracked count, then the torn append)" % (x, hs[idx * shard + j]["case"]))
-        lists = re.findall(r"\[([0-9;\s]*)\]", m.group(1).strip()[1:-1])
+        body = re.sub(r"%\w+", "", m.group(1))   # scope suffixes (3%nat) if a scope is ever opened by the imports
+        lists = re.findall(r"\[([0-9;\s]*)\]", body.strip()[1:-1])
         for j, l in enumerate(lists):
             if idx * shard + j < len(hs):
                 codes[idx * shard + j] = [int(x) for x in l.replace("\n", " ").split(";") if x.strip()]
+        # fail closed: one code list per history of the shard, one code per image (a list that did not parse must not
+        # turn into "no code, nothing to compare")
+        for j in range(len(hs[idx * shard:(idx + 1) * shard])):
+            hi = idx * shard + j
+            if len(codes.get(hi) or []) != len(hs[hi]["images"]):
+                ck.broken.append("model evaluation of shard %d: %d codes parsed for the %d images of history %d: %s" % (
+                    idx, len(codes.get(hi) or []), len(hs[hi]["images"]), hs[hi]["case"], o[-300:]))
     # ---- verdicts ----
     nimg = 0
     fail_known = {"C01-walphase": 0, "C01-asyncreplay": 0, "C01-idxtxn": 0, "C01-walheadereof": 0}
